@@ -110,7 +110,7 @@ func init() {
 		Shards: shards(12, 16),
 		Meta: func(tier string) rt.Meta {
 			return rt.Meta{Level: "exploration", MinEvals: 20000, MinDistinct: 100,
-				Rule:        "differential against the kernel and path/filepath (chroot on tmpfs), MemFS only: link graphs over 3 link names + a directory (with a marker child) + a file in /w, each link's target drawn from 17 shapes (sibling, ../w/x, absolute, itself and the other links - 2- and 3-cycles, chains -, missing, through a directory, through another link, '.', '..', '/'); every query path of <= 3 components over the names; the queries Stat/Lstat/ReadFile/ReadDir/EvalSymlinks/Readlink on every path without rebuilding, and 17 mutating calls (each on a freshly rebuilt graph, full tree compared afterwards), plus the sequence Link(link, other name) then Remove/Rename-over/RemoveAll of the first name followed by queries through the other name. EvalSymlinks also on paths that continue with '..', '.' and further names after every query path (resolved against what the link leads to, not lexically). Two links on one path (a link to a directory that holds a second link which dangles, loops, leads to a file, a directory or back up) under 60 creating/removing calls and the queries. A family of graphs whose directory names are string prefixes of their siblings (a, ab, abc, /w and /wa) with links leaving a for ab/abc. Chains of length 1..256 for the loop budget. Quick samples the graph space by seed, thorough enumerates all 17^3 graphs for the queries. Signature = call | pre-state class of the operand (link->file/dir/missing/loop, via-link, ...) | outcome; non-trivial: all (every case has links).",
+				Rule:        "differential against the kernel and path/filepath (chroot on tmpfs), MemFS only: link graphs over 3 link names + a directory (with a marker child) + a file in /w, each link's target drawn from 17 shapes (sibling, ../w/x, absolute, itself and the other links - 2- and 3-cycles, chains -, missing, through a directory, through another link, '.', '..', '/'); every query path of <= 3 components over the names; the queries Stat/Lstat/ReadFile/ReadDir/EvalSymlinks/Readlink on every path without rebuilding, and 17 mutating calls (each on a freshly rebuilt graph, full tree compared afterwards), plus the sequence Link(link, other name) then Remove/Rename-over/RemoveAll of the first name followed by queries through the other name. The name carried by the FileInfo of Stat/Lstat is compared on every query path. EvalSymlinks also on paths that continue with '..', '.' and further names after every query path (resolved against what the link leads to, not lexically). Two links on one path (a link to a directory that holds a second link which dangles, loops, leads to a file, a directory or back up) under 60 creating/removing calls and the queries. A family of graphs whose directory names are string prefixes of their siblings (a, ab, abc, /w and /wa) with links leaving a for ab/abc. Chains of length 1..256 for the loop budget. Quick samples the graph space by seed, thorough enumerates all 17^3 graphs for the queries. Signature = call | pre-state class of the operand (link->file/dir/missing/loop, via-link, ...) | outcome; non-trivial: all (every case has links).",
 				Assumptions: []string{"query paths and link targets are lexically clean; unclean spellings are defined by Clean() in C01"}}
 		},
 		Timeout: func(tier string) int {
